@@ -100,6 +100,11 @@ CLAIMED = {
             'defaults of unset fields and body in this order; a field read through an object variable is a derived variable tied to the field of every possible value, with mutually exclusive value groups; '
             'non-assignable values of a formula argument are excluded; new_eq and equates analyse the same cases. Which instance a solution picks is not decided.',
             'Rests on C14 (object variables) and C13 (disjunction) for the literals used.', 'DESIGN.md 4 C17'),
+    'C19': ('path rules over the CFG of executor::tick with a product construction (conditional constant propagation of the delay flag, correlated look-ups, announcement markers); error-discipline, filter and clause-schema rules of the executor',
+            'Static (BUILD_EXECUTOR=ON configuration): time advances exactly once per tick and outside the loop; in every iteration starting precedes start, ending precedes end; once an atom was delayed neither start / end nor the pulse erase is '
+            'reachable and the iteration restarts only after propagate() and solve(); the due pulse is erased once, last; every failed bound assertion is analysed or reported; constants cannot be delayed; '
+            'build_timelines keeps active, non-past atoms; adaptation clause {!sigma, !xi, sigma_xi}. Validity of the adapted plan (C01 on the re-solved problem) and exactly-once over a whole history are not decided.',
+            'Analysed in configuration F only (the executor is not part of the pinned build).', 'DESIGN.md 4 C19'),
 }
 
 NOT_YET = {}
